@@ -53,6 +53,7 @@ fn main() {
         "stream-session" => stream::cmd_session(rest),
         "aead-roundtrip" => aead::cmd_roundtrip(rest),
         "aead-tamper" => aead::cmd_tamper(rest),
+        "aead-vectors" => aead::cmd_vectors(rest),
         "untrusted" => untrusted::cmd_untrusted(rest),
         "untrusted-tags" => untrusted::cmd_tags(rest),
         "untrusted-pwstr" => untrusted::cmd_pwstr(rest),
